@@ -1,44 +1,68 @@
 #!/usr/bin/env python3
-"""mutation audit runner: run.py <mutations.py> [ids...]  -> appends to results.jsonl"""
-import sys, os, subprocess, json, re, time, importlib.util
-R='/work/c05/repo'; V='/work/c05/verif'
-spec=importlib.util.spec_from_file_location('m', sys.argv[1]); m=importlib.util.module_from_spec(spec); spec.loader.exec_module(m)
-want=set(sys.argv[2:])
-out=open('/work/c05/audit/results.jsonl','a')
-for mu in m.MUTS:
-    mid,prop,f,old,new,desc=mu[:6]
-    nth=mu[6] if len(mu)>6 else 0
-    if want and mid not in want: continue
-    subprocess.run(['git','-C',R,'checkout','-q','--','.'])
-    p=os.path.join(R,f); s=open(p).read()
-    idxs=[i.start() for i in re.finditer(re.escape(old), s)]
-    res={'id':mid,'prop':prop,'file':f,'desc':desc}
-    if len(idxs)<=nth:
-        res['result']='PATTERN-NOT-FOUND'; print(mid,res['result']); out.write(json.dumps(res)+'\n'); out.flush(); continue
-    i=idxs[nth]; s=s[:i]+new+s[i+len(old):]; open(p,'w').write(s)
-    rp=os.path.join(V,'replays',f'{prop}-quick-1.txt')
-    if os.path.exists(rp): os.remove(rp)
-    t0=time.time()
-    pr=subprocess.run(['bin/check',prop],cwd=V,env=dict(os.environ,VERIF_REPO=R),capture_output=True,text=True)
-    o=pr.stdout+pr.stderr
-    res['wall']=round(time.time()-t0)
-    summ=[l for l in o.splitlines() if l.startswith(prop+' quick')]
-    res['summary']=summ[0] if summ else o[-300:]
-    if 'harness build against' in o:
-        res['result']='NO-COMPILE'; res['detail']=o[-600:]
-    elif 'no-failing-input-found' in o:
-        res['result']='CORR-ONLY'
-        res['broken']=[l for l in o.splitlines() if l.startswith('BROKEN')]
-    elif 'VIOLATION' in o:
-        res['result']='CAUGHT'
-        try:
-            head=open(rp).read().splitlines()
-            res['kind']=head[0].split(': ')[-1]; res['replay']=[l for l in head if not l.startswith('#')][:14]
-        except Exception as e: res['kind']='?'
-    elif pr.returncode==0:
-        res['result']='MISSED'
+"""Mutation audit driver: run.py <PROP> <repo worktree> <verif copy> <mutations.json> <out.jsonl>"""
+import sys, json, subprocess, os, time
+prop, repo, vcopy, mfile, outp = sys.argv[1:6]
+muts = json.load(open(mfile))
+done = set()
+if os.path.exists(outp):
+    for l in open(outp):
+        done.add(json.loads(l)["id"])
+H = os.path.join(vcopy, "harness")
+def sh(cmd, cwd=None, timeout=1500):
+    p = subprocess.run(cmd, cwd=cwd, shell=True, stdout=subprocess.PIPE, stderr=subprocess.STDOUT, text=True, timeout=timeout)
+    return p.returncode, p.stdout
+for m in muts:
+    if m["id"] in done: continue
+    sh("git checkout -q .", cwd=repo)
+    path = os.path.join(repo, m["file"])
+    src = open(path).read()
+    n = src.count(m["old"])
+    occ = m.get("occ", 0)
+    rec = {"id": m["id"], "desc": m["desc"], "file": m["file"]}
+    if n == 0 or occ >= n or (n > 1 and "occ" not in m):
+        rec["verdict"] = f"NOT-APPLIED (old string found {n} times)"
+        open(outp, "a").write(json.dumps(rec) + "\n"); continue
+    idx = -1
+    for _ in range(occ + 1):
+        idx = src.index(m["old"], idx + 1)
+    src = src[:idx] + m["new"] + src[idx + len(m["old"]):]
+    open(path, "w").write(src)
+    t0 = time.time()
+    rc, out = sh("cargo build --offline --bin harness > /tmp/audit_build_%s.log 2>&1; rc=$?; grep -E '^error' -A6 /tmp/audit_build_%s.log | head -20; exit $rc" % (prop, prop), cwd=H)
+    if rc != 0:
+        rec["verdict"] = "DOES-NOT-COMPILE"; rec["detail"] = out[:400]
+        open(outp, "a").write(json.dumps(rec) + "\n"); continue
+    # translator
+    rc, out = sh(f"python3 translate/gen.py --repo {repo} --out /tmp/audit_gen_{prop} > /dev/null 2>/tmp/audit_gen_{prop}.err; echo rc=$?", cwd=vcopy)
+    rec["translator"] = "fails-closed" if "rc=0" not in out else "ok"
+    if rec["translator"] == "ok":
+        rc2, d = sh(f"diff -rq /tmp/audit_gen_{prop} lean/VlsModel/Gen | grep -v 'Only in lean' | head -3", cwd=vcopy)
+        if d.strip(): rec["translator"] = "generated-table-changed"
+    rj = f"/tmp/audit_{prop}.json"
+    if os.path.exists(rj): os.remove(rj)
+    try:
+        rc, out = sh(f"./target/debug/harness {prop} --model-bin ../lean/.lake/build/bin/vlsmodel --out {rj}", cwd=H, timeout=1500)
+    except subprocess.TimeoutExpired:
+        rc, out = 124, "timeout"
+    if not os.path.exists(rj):
+        rec["verdict"] = "HARNESS-CRASH"; rec["detail"] = out[-300:]
     else:
-        res['result']='OTHER'; res['detail']=o[-600:]
-    print(mid,res['result'],res.get('kind',''),res['summary'][-110:],flush=True)
-    out.write(json.dumps(res)+'\n'); out.flush()
-subprocess.run(['git','-C',R,'checkout','-q','--','.'])
+        reps = json.load(open(rj))
+        kinds = {}; dis = 0; first = None
+        for r in reps:
+            dis += len(r["disagreements"])
+            for v in r["violations"]:
+                kinds[v["kind"]] = kinds.get(v["kind"], 0) + 1
+                if first is None: first = {"group": r["extra"]["group"], "kind": v["kind"], "ops": v["ops"], "desc": v["desc"][:200]}
+        rec["violations"] = kinds; rec["disagreements"] = dis; rec["replay"] = first
+        if kinds: rec["verdict"] = "CAUGHT-REPLAY"
+        elif dis or rec["translator"] != "ok": rec["verdict"] = "CAUGHT-BREAK-ONLY"
+        else: rec["verdict"] = "MISSED"
+        if dis and not kinds:
+            for r in reps:
+                if r["disagreements"]:
+                    d = r["disagreements"][0]; rec["first_disagreement"] = {"ops": d["ops"][-2:], "impl": d["impl_out"][-1:], "model": d["model_out"][-1:]}; break
+    rec["wall_s"] = round(time.time() - t0)
+    open(outp, "a").write(json.dumps(rec) + "\n")
+    print(rec["id"], rec["verdict"], rec.get("violations"), rec.get("disagreements"), rec["wall_s"], flush=True)
+sh("git checkout -q .", cwd=repo)
